@@ -361,7 +361,9 @@ static void CodeCASE(void) {
 }
 
 static void CodeELSECASE(void) {
-    if (ChkArgCnt(0, 0)) {
+    if (!FirstIfSave) {
+        WrError(ErrNum_MissingIf);
+    } else if (ChkArgCnt(0, 0)) {
         if ((FirstIfSave->State != IfState_CASESWITCH)
             && (FirstIfSave->State != IfState_CASECASE)) {
             WrError(ErrNum_InvIfConst);
